@@ -163,10 +163,79 @@ func evalUser(c ucase) string {
 		return p
 	}
 	if injected && err == nil {
-		return fmt.Sprintf("dialect with %s at position %d accepted by Initialize", c.Inject, c.At)
+		if strings.HasPrefix(c.Inject, "dup:") {
+			return fmt.Sprintf("dialect with %s at position %d accepted by Initialize", c.Inject, c.At)
+		}
+		// "rejected when it is initialized, not at first use": a struct of the pool that the
+		// library accepts must then be usable - a probe value survives Write / Read unchanged,
+		// in both versions, without a panic. (Which structs count as malformed is the library's
+		// decision; accepting one and failing on it later is what the statement excludes.)
+		if d := firstUse(rw, inj); d != "" {
+			return fmt.Sprintf("dialect with %s at position %d accepted by Initialize, but the struct is not usable: %s", c.Inject, c.At, d)
+		}
 	}
 	if !injected && err != nil {
 		return "valid user dialect rejected: " + err.Error()
+	}
+	return ""
+}
+
+// firstUse encodes and decodes a probe value of m's type (every numeric field and array element
+// 1, every string "a") through the dialect's codec.
+func firstUse(rw *dialect.ReadWriter, m message.Message) (problem string) {
+	defer func() {
+		if e := recover(); e != nil {
+			problem = fmt.Sprintf("panic at first use: %v", e)
+		}
+	}()
+	mrw := rw.GetMessage(m.GetID())
+	if mrw == nil {
+		return "no codec for its id"
+	}
+	probe := reflect.New(reflect.TypeOf(m).Elem())
+	var fill func(v reflect.Value) bool
+	fill = func(v reflect.Value) bool {
+		switch v.Kind() {
+		case reflect.Int, reflect.Int8, reflect.Int16, reflect.Int32, reflect.Int64:
+			v.SetInt(1)
+		case reflect.Uint, reflect.Uint8, reflect.Uint16, reflect.Uint32, reflect.Uint64:
+			v.SetUint(1)
+		case reflect.Float32, reflect.Float64:
+			v.SetFloat(1)
+		case reflect.String:
+			v.SetString("a")
+		case reflect.Array:
+			for i := 0; i < v.Len(); i++ {
+				if !fill(v.Index(i)) {
+					return false
+				}
+			}
+		default:
+			return false // a kind no MAVLink field can have: nothing sensible to put there
+		}
+		return true
+	}
+	ev := probe.Elem()
+	for i := 0; i < ev.NumField(); i++ {
+		if !ev.Field(i).CanSet() || !fill(ev.Field(i)) {
+			return fmt.Sprintf("field %s has a kind no MAVLink field can carry, yet the struct was accepted", ev.Type().Field(i).Name)
+		}
+	}
+	for _, v2 := range []bool{false, true} {
+		if !v2 && m.GetID() > 255 {
+			continue
+		}
+		raw := mrw.Write(probe.Interface().(message.Message), v2)
+		if raw == nil {
+			return "Write returned nil"
+		}
+		back, err := mrw.Read(&message.MessageRaw{ID: raw.ID, Payload: append([]byte{}, raw.Payload...)}, v2)
+		if err != nil {
+			return "Read of its own encoding failed: " + err.Error()
+		}
+		if !reflect.DeepEqual(back, probe.Interface()) {
+			return fmt.Sprintf("probe %+v comes back as %+v (v2=%v)", probe.Elem().Interface(), reflect.ValueOf(back).Elem().Interface(), v2)
+		}
 	}
 	return ""
 }
